@@ -229,4 +229,56 @@ def clsOk (toks : List FTok) : Bool :=
 /-- is the entry in the regenerated legend at all -/
 def inLegend (st : SemTok) : Bool := legend.any (·.2 == st)
 
+/-! ## the output as separators + kept tokens (used by the statements of C22) -/
+
+/-- For each kept token the separator written before it, and the last line behaviour; `none` when
+the fold panics.  Same case analysis as `step`, without building the string. -/
+def segRun : LineBehavior → Int → List FTok → Option (List (Bytes × FTok) × LineBehavior)
+  | last, _, [] => some ([], last)
+  | last, indent, t :: ts =>
+    if !t.st.lb.shouldKeep then segRun last indent ts
+    else
+      let dedent : Option Int :=
+        if t.st.ic == .dedent then (if indent ≤ -128 then none else some (indent - 1))
+        else some indent
+      match dedent with
+      | none => none
+      | some indent =>
+        match separator last t.st.lb indent with
+        | none => none
+        | some sep =>
+          let after : Option Int :=
+            if t.st.ic == .indent then (if indent ≥ 127 then none else some (indent + 1))
+            else some indent
+          match after with
+          | none => none
+          | some indent' =>
+            match segRun t.st.lb indent' ts with
+            | none => none
+            | some (segs, l) => some ((sep, t) :: segs, l)
+
+/-- separators-and-tokens view of `format`, with the trailing line feed -/
+def segments (toks : List FTok) : Option (List (Bytes × FTok) × Bytes) :=
+  match segRun (.inl false false) 1 toks with
+  | none => none
+  | some (segs, last) => some (segs, if last.endsLine then [nl] else [])
+
+def render (segs : List (Bytes × FTok)) (trailer : Bytes) : Bytes :=
+  (segs.flatMap fun p => p.1 ++ p.2.text) ++ trailer
+
+/-- two consecutive tokens written without a separator although gluing them changes a token
+boundary -/
+def gluedBadly : List (Bytes × FTok) → Bool
+  | a :: b :: rest =>
+    (b.1.isEmpty && !glueSafe (clsOf a.2.text) (clsOf b.2.text)) || gluedBadly (b :: rest)
+  | _ => false
+
+/-- the indent counter stays within `0 ..= 127` (nesting depth below 127, brackets balanced) -/
+def indentBounded : Int → List FTok → Bool
+  | _, [] => true
+  | indent, t :: ts =>
+    let i1 := if t.st.ic == .dedent then indent - 1 else indent
+    let i2 := if t.st.ic == .indent then i1 + 1 else i1
+    decide (0 ≤ i1) && decide (i2 ≤ 127) && indentBounded i2 ts
+
 end IsoVerif.Format
